@@ -9,8 +9,11 @@ import (
 	"encoding/json"
 	"errors"
 	"fmt"
+	"encoding/base64"
 	"math/rand"
+	"mime/multipart"
 	"net/http"
+	"net/url"
 	"reflect"
 	"sort"
 	"strings"
@@ -62,6 +65,20 @@ type c14In struct {
 	PreQ []c14KV `json:"preq,omitempty"` // query parameters set by the operation's parameters
 	// kind "defhist"
 	Steps []c14Step `json:"steps,omitempty"`
+	// kind "cross"
+	Cross *c14Cross `json:"cross,omitempty"`
+}
+
+// c14Cross: a server authenticator of a declared kind facing a request that carries names and tokens in every place.
+// The request is built directly (net/http), written out and read back as a server would read it.
+type c14Cross struct {
+	Cred   string   `json:"cred"`           // basic | keyh | keyq | bearer: what the authenticator is declared to read
+	Name   Bs       `json:"name,omitempty"` // keyh / keyq: the key's name
+	Method string   `json:"method"`
+	Hdrs   []c14KV  `json:"hdrs,omitempty"`   // request headers, names distinct whatever their case; cookies are a Cookie header
+	Qry    []c14KVs `json:"qry,omitempty"`    // query parameters, names distinct
+	Form   int      `json:"form,omitempty"`   // 0 no body, 1 urlencoded, 2 multipart, 3 urlencoded body under a JSON content type
+	Fields []c14KVs `json:"fields,omitempty"` // the fields of the body, names distinct
 }
 
 // c14Step is one request of a history on one Runtime: DefaultAuthentication is (re)assigned from DefW, then the request is built.
@@ -137,6 +154,8 @@ func (c14) Rule() string {
 		"and of default writer, with Authorization / key header / query parameters pre-set by the parameters; observed: every non-transport header and every query parameter received; " +
 		"defhist: 2-6 requests on one Runtime with DefaultAuthentication reassigned between them (every sequence of three settings out of {token A, token B, none} under nine patterns of plain / own AuthInfo / pre-set Authorization requests, " +
 		"sequences over bearer / basic / key in header / key in query / none, random histories of random writers), built by CreateHttpRequest or Submit; earlier client-side requests re-inspected at the end. " +
+		"cross: each authenticator kind (basic, key in header, key in query, bearer; plain and Ctx) on a request that carries the key's name / access_token / Authorization and the token, or another token, " +
+		"in its declared location and - also or only - in the other places: other headers, a cookie, query parameters, fields of a urlencoded or multipart form body (also under a JSON content type), for POST / PUT / PATCH / GET / DELETE; " +
 		"Non-trivial: every case in which a credential is transmitted or configured."
 }
 
@@ -259,6 +278,7 @@ func (c14) Enumerate(tier string) []any {
 			}
 		}
 	}
+	out = append(out, c14EnumCross()...)
 	// every single byte as a password and as a query key value
 	for c := 0; c < 256; c++ {
 		out = append(out, c14In{Kind: "basic", U: "u", P: Bs([]byte{byte(c)}), Ctx: c%2 == 0})
@@ -341,6 +361,9 @@ func c14GenWriter(r *rand.Rand, depth int) c14W {
 }
 
 func (c14) Gen(r *rand.Rand, tier string, i int) any {
+	if i%6 == 5 {
+		return c14GenCross(r)
+	}
 	switch k := r.Intn(11); {
 	case k == 10:
 		return c14GenHist(r)
@@ -875,6 +898,63 @@ func (c14) Run(inAny any) any {
 			obs.Hdrs, obs.Qry = c14Observe(sreq)
 		case "defhist":
 			obs.Steps = c14RunHist(in)
+		case "cross":
+			x := in.Cross
+			sreq, err := c14CrossRequest(x)
+			if err != nil {
+				obs.Fail = err.Error()
+				return
+			}
+			var a runtime.Authenticator
+			tokCb := func(tok string) (interface{}, error) {
+				obs.Called++
+				obs.GotTok = Bs(tok)
+				return principal, cbErr
+			}
+			tokCbCtx := func(ctx context.Context, tok string) (context.Context, interface{}, error) {
+				obs.Called++
+				obs.GotTok = Bs(tok)
+				return ctx, principal, cbErr
+			}
+			switch x.Cred {
+			case "basic":
+				if in.Ctx {
+					a = security.BasicAuthCtx(func(ctx context.Context, u, p string) (context.Context, interface{}, error) {
+						obs.Called++
+						obs.GotU, obs.GotP = Bs(u), Bs(p)
+						return ctx, principal, cbErr
+					})
+				} else {
+					a = security.BasicAuth(func(u, p string) (interface{}, error) {
+						obs.Called++
+						obs.GotU, obs.GotP = Bs(u), Bs(p)
+						return principal, cbErr
+					})
+				}
+			case "keyh", "keyq":
+				loc := map[string]string{"keyh": "header", "keyq": "query"}[x.Cred]
+				if in.Ctx {
+					a = security.APIKeyAuthCtx(string(x.Name), loc, tokCbCtx)
+				} else {
+					a = security.APIKeyAuth(string(x.Name), loc, tokCb)
+				}
+			default:
+				if in.Ctx {
+					a = security.BearerAuthCtx("oauth-scheme", func(ctx context.Context, tok string, _ []string) (context.Context, interface{}, error) {
+						return tokCbCtx(ctx, tok)
+					})
+				} else {
+					a = security.BearerAuth("oauth-scheme", func(tok string, _ []string) (interface{}, error) { return tokCb(tok) })
+				}
+			}
+			var applies bool
+			var p interface{}
+			if x.Cred == "bearer" {
+				applies, p, err = a.Authenticate(&security.ScopedAuthRequest{Request: sreq, RequiredScopes: []string{"read"}})
+			} else {
+				applies, p, err = a.Authenticate(sreq)
+			}
+			finish(applies, p, err)
 		}
 	})
 	if panicked {
@@ -904,6 +984,15 @@ func (c14) Coq(inAny any, obsAny any) string {
 	}
 	pok := obs.POK && obs.Panic == ""
 	switch in.Kind {
+	case "cross":
+		x := in.Cross
+		kind := map[string]string{"basic": "KBasic", "keyh": "KKeyHeader", "keyq": "KKeyQuery", "bearer": "KBearer"}[x.Cred]
+		got := coqPair(coqBytes(string(obs.GotTok)), coqBytes(""))
+		if x.Cred == "basic" {
+			got = coqPair(coqBytes(string(obs.GotU)), coqBytes(string(obs.GotP)))
+		}
+		return fmt.Sprintf("CCross %s %s %s %s %s %s %s %s %s", kind, coqBytes(string(x.Name)), coqList(x.Hdrs, c14CoqKV), coqList(x.Qry, c14CoqKVs),
+			coqList(x.Fields, c14CoqKVs), coqBool(c14CrossFormRead(x)), coqBool(obs.Applies), coqOpt(obs.Called > 0, got), coqBool(pok))
 	case "basic":
 		return fmt.Sprintf("CBasic %s %s %s %s %s %s %s %s", coqBytes(string(in.U)), coqBytes(string(in.P)), coqBytes(string(in.Realm)), coqBool(in.CbErr),
 			coqBool(obs.Applies), coqOpt(obs.Called > 0, coqPair(coqBytes(string(obs.GotU)), coqBytes(string(obs.GotP)))), coqBytes(string(obs.Marker)), coqBool(pok))
@@ -969,6 +1058,8 @@ func (c14) Category(inAny any, obsAny any) (string, bool) {
 		app = "applies"
 	}
 	switch in.Kind {
+	case "cross":
+		return fmt.Sprintf("cross/%s/%s/%s/%s", in.Cross.Cred, v, c14CrossLabel(in.Cross), app), true
 	case "basic":
 		t := "user-ok"
 		if strings.Contains(string(in.U), ":") {
@@ -1027,4 +1118,291 @@ func (c14) Category(inAny any, obsAny any) (string, bool) {
 			in.OpW != nil || in.DefW != nil || len(in.PreH) > 0 || len(in.PreQ) > 0
 	}
 	return in.Kind, false
+}
+
+// ---------- cross-location cases ----------
+
+// c14CrossFormRead: the body is a form a server parses - multipart for every method, urlencoded for POST / PUT / PATCH only
+// (net/http's ParseForm); this is what the model calls a form media type.
+func c14CrossFormRead(x *c14Cross) bool {
+	switch x.Form {
+	case 2:
+		return true
+	case 1:
+		return x.Method == "POST" || x.Method == "PUT" || x.Method == "PATCH"
+	}
+	return false
+}
+
+func c14CrossRequest(x *c14Cross) (*http.Request, error) {
+	var qs []string
+	for _, kv := range x.Qry {
+		for _, v := range kv.Vs {
+			qs = append(qs, url.QueryEscape(string(kv.K))+"="+url.QueryEscape(string(v)))
+		}
+	}
+	target := "http://api.example.com/things"
+	if len(qs) > 0 {
+		target += "?" + strings.Join(qs, "&")
+	}
+	var body bytes.Buffer
+	ct := ""
+	switch x.Form {
+	case 1, 3:
+		var fs []string
+		for _, kv := range x.Fields {
+			for _, v := range kv.Vs {
+				fs = append(fs, url.QueryEscape(string(kv.K))+"="+url.QueryEscape(string(v)))
+			}
+		}
+		body.WriteString(strings.Join(fs, "&"))
+		ct = runtime.URLencodedFormMime
+		if x.Form == 3 {
+			ct = runtime.JSONMime
+		}
+	case 2:
+		w := multipart.NewWriter(&body)
+		for _, kv := range x.Fields {
+			for _, v := range kv.Vs {
+				if err := w.WriteField(string(kv.K), string(v)); err != nil {
+					return nil, err
+				}
+			}
+		}
+		if err := w.Close(); err != nil {
+			return nil, err
+		}
+		ct = w.FormDataContentType()
+	}
+	var rd *bytes.Reader
+	req, err := http.NewRequest(x.Method, target, nil)
+	if x.Form != 0 {
+		rd = bytes.NewReader(body.Bytes())
+		req, err = http.NewRequest(x.Method, target, rd)
+	}
+	if err != nil {
+		return nil, err
+	}
+	if ct != "" {
+		req.Header.Set("Content-Type", ct)
+	}
+	for _, kv := range x.Hdrs {
+		req.Header.Set(string(kv.K), string(kv.V))
+	}
+	var buf bytes.Buffer
+	if err := req.Write(&buf); err != nil {
+		return nil, err
+	}
+	return http.ReadRequest(bufio.NewReader(&buf))
+}
+
+// c14CrossLabel: is the declared location filled, and which other places carry the name of interest.
+func c14CrossLabel(x *c14Cross) string {
+	interest := map[string]bool{"authorization": true, "access_token": true}
+	if x.Name != "" {
+		interest[strings.ToLower(string(x.Name))] = true
+	}
+	has := func(place string) bool {
+		switch place {
+		case "header":
+			for _, kv := range x.Hdrs {
+				if interest[strings.ToLower(string(kv.K))] {
+					return true
+				}
+			}
+		case "cookie":
+			for _, kv := range x.Hdrs {
+				if strings.EqualFold(string(kv.K), "Cookie") {
+					return true
+				}
+			}
+		case "query":
+			for _, kv := range x.Qry {
+				if interest[strings.ToLower(string(kv.K))] {
+					return true
+				}
+			}
+		case "form":
+			for _, kv := range x.Fields {
+				if x.Form != 0 && interest[strings.ToLower(string(kv.K))] {
+					return true
+				}
+			}
+		}
+		return false
+	}
+	var pl []string
+	for _, p := range []string{"header", "query", "form", "cookie"} {
+		if has(p) {
+			if p == "form" {
+				p = []string{"", "urlform", "multipart", "jsonct-form"}[x.Form]
+			}
+			pl = append(pl, p)
+		}
+	}
+	if len(pl) == 0 {
+		pl = []string{"nowhere"}
+	}
+	return "in:" + strings.Join(pl, "+")
+}
+
+func c14BasicValue(u, p string) string {
+	return "Basic " + base64.StdEncoding.EncodeToString([]byte(u+":"+p))
+}
+
+// c14CrossBuild places, for one credential kind, the credential in its declared location (declared: 0 nowhere; 1 the
+// location; for bearer 1 header, 2 query, 3 form) and another one of the same name in the other places chosen by decoys
+// (bit 0 header, 1 query, 2 form, 3 cookie; a place that is the declared location itself is left alone).
+func c14CrossBuild(cred, name string, declared, decoys, form int, method string, tok, other string) *c14Cross {
+	x := &c14Cross{Cred: cred, Name: Bs(name), Method: method, Form: form}
+	x.Qry = []c14KVs{{K: "page", Vs: []Bs{"2"}}}
+	x.Hdrs = []c14KV{{K: "X-Request-Id", V: "r-17"}}
+	if form != 0 {
+		x.Fields = []c14KVs{{K: "comment", Vs: []Bs{"hello"}}}
+	}
+	nm := name
+	hv, dv := tok, other // what a header holds: the credential / the other one
+	switch cred {
+	case "basic":
+		nm = "Authorization"
+		hv, dv = c14BasicValue("user", tok), c14BasicValue("mallory", other)
+		tok, other = hv, dv
+	case "bearer":
+		nm = "access_token"
+		hv, dv = "Bearer "+tok, "Bearer "+other
+	}
+	addH := func(k, v string) { x.Hdrs = append(x.Hdrs, c14KV{Bs(k), Bs(v)}) }
+	addQ := func(k, v string) { x.Qry = append(x.Qry, c14KVs{Bs(k), []Bs{Bs(v)}}) }
+	addF := func(k, v string) {
+		if form != 0 {
+			x.Fields = append(x.Fields, c14KVs{Bs(k), []Bs{Bs(v)}})
+		}
+	}
+	// the declared location
+	hdrTaken, qryTaken, formTaken := false, false, false
+	switch {
+	case declared == 0:
+	case cred == "basic":
+		addH("Authorization", hv)
+		hdrTaken = true
+	case cred == "keyh":
+		addH(name, tok)
+		hdrTaken = true
+	case cred == "keyq":
+		addQ(name, tok)
+		qryTaken = true
+	case cred == "bearer" && declared == 1:
+		addH("Authorization", hv)
+	case cred == "bearer" && declared == 2:
+		addQ("access_token", tok)
+		qryTaken = true
+	case cred == "bearer" && declared == 3:
+		addF("access_token", tok)
+		formTaken = true
+	}
+	// the same name elsewhere
+	if decoys&1 != 0 && !hdrTaken && cred != "basic" && cred != "keyh" {
+		addH(nm, other) // a header named like the query key / like access_token
+	}
+	if decoys&2 != 0 && !qryTaken && cred != "keyq" {
+		if cred == "bearer" {
+			addQ("Authorization", dv) // access_token in the query is a declared place of bearer: the Authorization value as a query parameter instead
+		} else {
+			addQ(nm, other)
+		}
+	}
+	if decoys&4 != 0 && !formTaken {
+		if cred == "bearer" {
+			addF("Authorization", dv)
+			if form == 3 {
+				addF("access_token", other) // a form-looking body under a JSON content type is not a form body
+			}
+		} else {
+			addF(nm, other)
+		}
+	}
+	if decoys&8 != 0 {
+		addH("Cookie", nm+"="+url.QueryEscape(other)+"; session=s1")
+	}
+	return x
+}
+
+func c14EnumCross() []any {
+	var out []any
+	methods := []string{"POST", "PUT", "PATCH", "POST", "GET", "DELETE"}
+	n := 0
+	for _, cred := range []string{"basic", "keyh", "keyq", "bearer"} {
+		maxDecl := 1
+		if cred == "bearer" {
+			maxDecl = 3
+		}
+		for declared := 0; declared <= maxDecl; declared++ {
+			for form := 0; form <= 3; form++ {
+				if cred == "bearer" && declared == 3 && form == 0 {
+					continue
+				}
+				for decoys := 0; decoys < 16; decoys++ {
+					if decoys&4 != 0 && form == 0 {
+						continue
+					}
+					name := []string{"api_key", "X-API-Key", "token"}[n%3]
+					x := c14CrossBuild(cred, name, declared, decoys, form, methods[n%len(methods)], "the-real-key", "from-elsewhere")
+					out = append(out, c14In{Kind: "cross", Ctx: n%2 == 1, Cross: x})
+					n++
+				}
+			}
+		}
+	}
+	return out
+}
+
+var c14CrossNames = []string{"api_key", "X-API-Key", "token", "key", "access_token", "Authorization", "k.e-y", "API_KEY"}
+var c14CrossToks = []string{"the-real-key", "t", "a b", "a&b=c", "x+y", "%41", "Bearer inner", "0"}
+
+func c14GenCross(r *rand.Rand) c14In {
+	cred := []string{"basic", "keyh", "keyq", "keyq", "bearer"}[r.Intn(5)]
+	name := c14CrossNames[r.Intn(len(c14CrossNames))]
+	declared := r.Intn(2)
+	if cred == "bearer" {
+		declared = r.Intn(4)
+	}
+	form := r.Intn(4)
+	if cred == "bearer" && declared == 3 && form == 0 {
+		form = 1 + r.Intn(2)
+	}
+	method := []string{"POST", "POST", "PUT", "PATCH", "GET", "DELETE"}[r.Intn(6)]
+	tok, other := c14CrossToks[r.Intn(len(c14CrossToks))], c14CrossToks[r.Intn(len(c14CrossToks))]
+	if r.Intn(3) == 0 {
+		tok = c14HeaderSafe(r, 1+r.Intn(10))
+	}
+	tok, other = strings.TrimSpace(tok), strings.TrimSpace(other)
+	if tok == "" {
+		tok = "t0"
+	}
+	x := c14CrossBuild(cred, name, declared, r.Intn(16), form, method, tok, other+"#other")
+	// more of the request: the name in another case (another parameter for query and form, the same header), empty values, a second value
+	seenQ, seenF := map[string]bool{}, map[string]bool{}
+	for _, kv := range x.Qry {
+		seenQ[string(kv.K)] = true
+	}
+	for _, kv := range x.Fields {
+		seenF[string(kv.K)] = true
+	}
+	for j := r.Intn(3); j > 0; j-- {
+		k := []string{strings.ToUpper(name), strings.ToLower(name), name + "2", "access_token", "other"}[r.Intn(5)]
+		v := []Bs{Bs(c14CrossToks[r.Intn(len(c14CrossToks))])}
+		if r.Intn(4) == 0 {
+			v = append([]Bs{""}, v...) // an empty first value
+		}
+		if r.Intn(2) == 0 && !seenQ[k] && !(cred == "bearer" && k == "access_token") {
+			seenQ[k] = true
+			x.Qry = append(x.Qry, c14KVs{Bs(k), v})
+		} else if form != 0 && !seenF[k] && !(cred == "bearer" && k == "access_token") {
+			seenF[k] = true
+			x.Fields = append(x.Fields, c14KVs{Bs(k), v})
+		}
+	}
+	r.Shuffle(len(x.Qry), func(a, b int) { x.Qry[a], x.Qry[b] = x.Qry[b], x.Qry[a] })
+	r.Shuffle(len(x.Fields), func(a, b int) { x.Fields[a], x.Fields[b] = x.Fields[b], x.Fields[a] })
+	return c14In{Kind: "cross", Ctx: r.Intn(2) == 0, CbErr: r.Intn(6) == 0, Cross: x}
 }
